@@ -219,10 +219,12 @@ func skipList(p *binary.BinaryProtocol, desc *proto.TypeDescriptor) (int, error)
 }
 
 // searchIntKey in MAP Node
-// if key is found, return the value tag position, otherwise return the end of p.Buf
+// if key is found, return the position of the tag of its pair and leave p.Read at the value tag, otherwise return the end of p.Buf
 func searchIntKey(p *binary.BinaryProtocol, key int, keyType proto.Type, mapFieldNumber proto.FieldNumber) (int, error) {
 	exist := false
 	start := p.Read
+	// the caller has consumed the tag of the first pair
+	pairStart := p.Read - protowire.SizeVarint(uint64(mapFieldNumber)<<3|uint64(proto.BytesType))
 	for p.Read < len(p.Buf) {
 		if _, err := p.ReadLength(); err != nil {
 			return 0, wrapError(meta.ErrRead, "searchIntKey: read pair length failed", nil)
@@ -239,7 +241,7 @@ func searchIntKey(p *binary.BinaryProtocol, key int, keyType proto.Type, mapFiel
 
 		if k == key {
 			exist = true
-			start = p.Read // p.Read will point to value tag
+			start = pairStart // p.Read will point to value tag
 			break
 		}
 
@@ -265,6 +267,7 @@ func searchIntKey(p *binary.BinaryProtocol, key int, keyType proto.Type, mapFiel
 		if elementFieldNumber != mapFieldNumber {
 			break
 		}
+		pairStart = p.Read
 		p.Read += n
 	}
 	if !exist {
@@ -274,10 +277,12 @@ func searchIntKey(p *binary.BinaryProtocol, key int, keyType proto.Type, mapFiel
 }
 
 // searchStrKey in MAP Node
-// if key is found, return the value tag position, otherwise return the end of p.Buf
+// if key is found, return the position of the tag of its pair and leave p.Read at the value tag, otherwise return the end of p.Buf
 func searchStrKey(p *binary.BinaryProtocol, key string, keyType proto.Type, mapFieldNumber proto.FieldNumber) (int, error) {
 	exist := false
 	start := p.Read
+	// the caller has consumed the tag of the first pair
+	pairStart := p.Read - protowire.SizeVarint(uint64(mapFieldNumber)<<3|uint64(proto.BytesType))
 
 	for p.Read < len(p.Buf) {
 		if _, err := p.ReadLength(); err != nil {
@@ -295,7 +300,7 @@ func searchStrKey(p *binary.BinaryProtocol, key string, keyType proto.Type, mapF
 
 		if k == key {
 			exist = true
-			start = p.Read // p.Read will point to value tag
+			start = pairStart // p.Read will point to value tag
 			break
 		}
 
@@ -321,6 +326,7 @@ func searchStrKey(p *binary.BinaryProtocol, key string, keyType proto.Type, mapF
 		if elementFieldNumber != mapFieldNumber {
 			break
 		}
+		pairStart = p.Read
 		p.Read += n
 	}
 	if !exist {
@@ -485,7 +491,8 @@ func (self Value) getByPath(pathes ...Path) (Value, []int) {
 		default:
 			return errValue(meta.ErrUnsupportedType, fmt.Sprintf("invalid %dth path: %#v", i, p), nil), address
 		}
-		// after search function, p.Read will always point to the tag position except when packed list element
+		// after search function, p.Read will always point to the tag position except when packed list element.
+		// The address is that position too, except for a map value: there it is the tag of the pair
 		address[i] = start
 
 		if err != nil {
@@ -646,8 +653,52 @@ func (self *Value) SetByPath(sub Node, path ...Path) (exist bool, err error) {
 
 	originLen := len(self.raw()) // root buf length
 	err = self.replace(v.Node, sub) // replace ErrorNode bytes by sub Node bytes
+	if exist && err == nil && (path[l-1].t == PathStrKey || path[l-1].t == PathIntKey) {
+		// only the value of the pair has been replaced: the pair has a length too
+		self.updateLength(address[l-1], sub.l-v.l, false)
+	}
 	self.updateByteLen(originLen, address, isPacked, path...)
 	return
+}
+
+// updateLength adds diff to the length of the length-prefixed node whose tag is at pos: [tag][length][...],
+// and returns by how many bytes that changed the size of the buffer (the length may need more or less bytes).
+// If removeEmpty is set and the length becomes 0, the tag and the length are removed
+func (self *Node) updateLength(pos int, diff int, removeEmpty bool) int {
+	buf := self.raw()
+	_, tagOffset := protowire.ConsumeVarint(buf[pos:])
+	if tagOffset <= 0 {
+		return 0
+	}
+	length, lenOffset := protowire.ConsumeVarint(buf[pos+tagOffset:])
+	if lenOffset <= 0 {
+		return 0
+	}
+	newLength := int(length) + diff
+	head := pos + tagOffset
+	tail := head + lenOffset
+	newBytes := NewBytesFromPool()
+	defer FreeBytesToPool(newBytes)
+	if newLength == 0 && removeEmpty {
+		head = pos // delete tag
+	} else {
+		newBytes = protowire.AppendVarint(newBytes, uint64(newLength))
+	}
+
+	if len(newBytes) == tail-head {
+		// no need to change length
+		copy(buf[head:tail], newBytes)
+		return 0
+	}
+
+	// copy three slices into new buffer
+	newBuf := make([]byte, 0, len(buf)-(tail-head)+len(newBytes))
+	newBuf = append(newBuf, buf[:head]...)
+	newBuf = append(newBuf, newBytes...)
+	newBuf = append(newBuf, buf[tail:]...)
+	self.v = rt.GetBytePtr(newBuf)
+	self.l = len(newBuf)
+	return len(newBytes) - (tail - head)
 }
 
 // update parent node bytes length
@@ -660,56 +711,31 @@ func (self *Value) updateByteLen(originLen int, address []int, isPacked bool, pa
 		// notice: when i == len(address) - 1, it do not change bytes length because it has been changed in replace function, just change previousType
 		pathType := path[i].t
 		addressPtr := address[i]
+		isPair := pathType == PathStrKey || pathType == PathIntKey
 		if previousType == proto.MESSAGE || (previousType == proto.LIST && isPacked) {
-			newBytes := NewBytesFromPool()
-			// tag
-			buf := rt.BytesFrom(rt.AddPtr(self.v, uintptr(addressPtr)), self.l-addressPtr, self.l-addressPtr)
-			_, tagOffset := protowire.ConsumeVarint(buf)
-			// length
-			length, lenOffset := protowire.ConsumeVarint(buf[tagOffset:])
-			newLength := int(length) + diffLen
-			newBytes = protowire.AppendVarint(newBytes, uint64(newLength))
+			pos := addressPtr
+			if isPair {
+				// the address of a map value is the tag of its pair: [pairTag][pairLen][keyTag][key][valueTag][valueLen]...
+				p := binary.BinaryProtocol{Buf: self.raw(), Read: addressPtr}
+				p.ConsumeTag()
+				p.ReadLength()
+				_, keyWireType, _, _ := p.ConsumeTag()
+				p.Skip(keyWireType, false)
+				pos = p.Read
+			}
 			// a packed list that lost all its elements disappears with its tag,
 			// an empty message stays: it is present and has length 0
-			removed := newLength == 0 && previousType == proto.LIST
-			if removed {
-				newBytes = newBytes[:0]
-			}
-
-			subLen := len(newBytes) - lenOffset
-
-			if subLen == 0 {
-				// no need to change length
-				copy(buf[tagOffset:tagOffset+lenOffset], newBytes)
-			} else {
-				// split length
-				srcHead := rt.AddPtr(self.v, uintptr(addressPtr+tagOffset))
-				if removed {
-					// delete tag
-					srcHead = rt.AddPtr(self.v, uintptr(addressPtr))
-					subLen -= tagOffset
-				}
-
-				srcTail := rt.AddPtr(self.v, uintptr(addressPtr+tagOffset+lenOffset))
-				l0 := int(uintptr(srcHead) - uintptr(self.v))
-				l1 := len(newBytes)
-				l2 := int(uintptr(self.v) + uintptr(self.l) - uintptr(srcTail))
-
-				// copy three slices into new buffer
-				newBuf := make([]byte, l0+l1+l2)
-				copy(newBuf[:l0], rt.BytesFrom(self.v, l0, l0))
-				copy(newBuf[l0:l0+l1], newBytes)
-				copy(newBuf[l0+l1:l0+l1+l2], rt.BytesFrom(srcTail, l2, l2))
-				self.v = rt.GetBytePtr(newBuf)
-				self.l = int(len(newBuf))
-				diffLen += subLen
-			}
+			diffLen += self.updateLength(pos, diffLen, previousType == proto.LIST)
 			// only the innermost enclosing node can be a packed list
 			isPacked = false
-			FreeBytesToPool(newBytes)
 		}
 
-		if pathType == PathStrKey || pathType == PathIntKey {
+		if isPair && previousType != proto.UNKNOWN {
+			// the value of the pair changed its size: the pair has a length too
+			diffLen += self.updateLength(addressPtr, diffLen, false)
+		}
+
+		if isPair {
 			previousType = proto.MAP
 		} else if pathType == PathIndex {
 			previousType = proto.LIST
